@@ -171,6 +171,7 @@ pub fn profile() -> Profile {
     let mut p = Profile::general();
     p.p_mut = 12;
     p.max_txs = 5;
+    p.lead_blocks = 8;
     p
 }
 
@@ -180,7 +181,7 @@ pub fn run(ctx: &Ctx) -> (Outcome, String, Option<bool>) {
         p.max_steps = 30;
         p.max_txs = 10;
     }
-    let out = super::hist::run_histories(ctx, "histories", p, ctx.scale(120, 2000), C06::default);
+    let out = super::hist::run_histories(ctx, "histories", p, ctx.scale(500, 5000), C06::default);
     let rule = "Every block produced in generated histories (built honestly through apply_tx_batch in one or several batches + seal, all kinds of transactions, with and without proposer action, four network classes), and for each ~20 single mutations: each of the 11 header fields (+-1 or a flipped bit), a transaction removed / its data or a signature byte altered / a faucet added, the proposer action removed, added, sent elsewhere, or given another delta whose movement differs. Oracle: parent.apply_block(block) is Ok with header == block.header for the honest block under 4 rebuilt HashSets (fresh hash seeds, rotated insertion order), and Err for every mutation. Evaluations counts blocks; mutation checks are counted in classes. Non-trivial = honest block with >=2 transactions; distinct by block hash.".to_string();
     (out, rule, None)
 }
